@@ -113,6 +113,52 @@ fn run_polygon(cx: &mut Cx, subs: &[Vec<IP>], close: &[bool], lo: i64, hi: i64, 
         }
     };
     let edges = edges_of(subs);
+    // "... which is also exactly where the fill tessellation puts triangles": the same path filled under both rules
+    let fills: Vec<Option<Vec<[(f64, f64); 3]>>> = [FillRule::EvenOdd, FillRule::NonZero]
+        .iter()
+        .map(|rule| {
+            catch(std::panic::AssertUnwindSafe(|| {
+                use lyon_tessellation::geometry_builder::{BuffersBuilder, Positions, VertexBuffers};
+                let mut buffers: VertexBuffers<Point, u32> = VertexBuffers::new();
+                let ok = lyon_tessellation::FillTessellator::new()
+                    .tessellate_path(&path, &lyon_tessellation::FillOptions::tolerance(0.1).with_fill_rule(*rule), &mut BuffersBuilder::new(&mut buffers, Positions))
+                    .is_ok();
+                if !ok {
+                    return None;
+                }
+                Some(
+                    buffers
+                        .indices
+                        .chunks(3)
+                        .map(|t| {
+                            let f = |i: u32| (buffers.vertices[i as usize].x as f64, buffers.vertices[i as usize].y as f64);
+                            [f(t[0]), f(t[1]), f(t[2])]
+                        })
+                        .collect::<Vec<_>>(),
+                )
+            }))
+            .flatten()
+        })
+        .collect();
+    // signed distance-like containment: > 0 strictly inside some triangle by that margin, < 0 outside all of them
+    let depth = |tris: &[[(f64, f64); 3]], p: (f64, f64)| -> f64 {
+        let mut best = f64::MIN;
+        for t in tris {
+            let area2 = (t[1].0 - t[0].0) * (t[2].1 - t[0].1) - (t[1].1 - t[0].1) * (t[2].0 - t[0].0);
+            if area2 == 0.0 {
+                continue;
+            }
+            let sgn = area2.signum();
+            let mut d = f64::MAX;
+            for k in 0..3 {
+                let (a, b) = (t[k], t[(k + 1) % 3]);
+                let l = ((b.0 - a.0).powi(2) + (b.1 - a.1).powi(2)).sqrt();
+                d = d.min(sgn * ((b.0 - a.0) * (p.1 - a.1) - (b.1 - a.1) * (p.0 - a.0)) / l);
+            }
+            best = best.max(d);
+        }
+        best
+    };
     let mut queries = Vec::new();
     let mut nq = 0usize;
     let mut nonzero = false;
@@ -163,6 +209,20 @@ fn run_polygon(cx: &mut Cx, subs: &[Vec<IP>], close: &[bool], lo: i64, hi: i64, 
             }
             if eo != (w % 2 != 0) || nz != (w != 0) {
                 cx.st.fail(jobj(&[("what", jstr("hit test is not the fill rule applied to the winding number")), ("input", jstr(&format!("{} at {:?}", text, fp)))]));
+            }
+            // FillRule::is_in / is_out: the evaluation of the rule that the tessellator shares
+            if FillRule::EvenOdd.is_in(w as i16) != eo || FillRule::NonZero.is_in(w as i16) != nz || FillRule::EvenOdd.is_out(w as i16) == eo || FillRule::NonZero.is_out(w as i16) == nz {
+                cx.st.fail(jobj(&[("what", jstr("FillRule::is_in / is_out disagree with the hit test")), ("input", jstr(&format!("{} at {:?}: winding {}", text, fp, w)))]));
+            }
+            // the fill covers the point exactly when the hit test says so (the point is off the outline; points within
+            // 1e-3 of a triangle edge are not judged)
+            for (k, hit) in [eo, nz].iter().enumerate() {
+                if let Some(tris) = &fills[k] {
+                    let d = depth(tris, (fp.x as f64, fp.y as f64));
+                    if (*hit && d < -1e-3) || (!*hit && d > 1e-3) {
+                        cx.st.fail(jobj(&[("what", jstr("the fill tessellation does not put triangles exactly where the hit test is true")), ("input", jstr(&format!("{} at {:?}: {} hit {} depth {}", text, fp, if k == 0 { "EvenOdd" } else { "NonZero" }, hit, d)))]));
+                    }
+                }
             }
             queries.push(format!("({}, {}%Z, {}, {})", gpt(p), gz(w as i64), gbool(eo), gbool(nz)));
         }
